@@ -46,8 +46,23 @@ def loop_arraybase_post_init():
     return loops.FunctionalLoop(state)
 
 
+# ArrayBase._update_items_size, loops 0 and 1:  for item in del_items / insert_items: size_diff -/+= size(item)
+#   fixed-size item kinds:  size_diff == size_diff_at_entry -/+ k * item_size
+def loop_update_items_size(sign):
+    def state(frame, ctx, k):
+        me = frame.lookup('self')
+        size = fixed_item_size(I.getattr_(me, 'param'))
+        if size is None:
+            raise E.Unsupported('_update_items_size over a symbolic number of variable-size items')
+        d0 = as_int(ctx.entry['size_diff'])
+        return {'size_diff': ops.wrap_int(d0 + sign * V.iv(k) * size)}
+    return loops.FunctionalLoop(state)
+
+
 def register():
     F.LOOPS[('ArrayBase.__attrs_post_init__', 0)] = loop_arraybase_post_init()
+    F.LOOPS[('ArrayBase._update_items_size', 0)] = loop_update_items_size(-1)
+    F.LOOPS[('ArrayBase._update_items_size', 1)] = loop_update_items_size(+1)
     register_enum()
 
 
